@@ -11,7 +11,15 @@ for every live e and the positions are a permutation of 0..n-1), parent <=
 child, peek(n) == NULL, and `ptrheap_getmin` is a live element whose key is
 the model minimum.  delete/increase/decrease are called with pos[e]; the model
 then acts on e.  At the end the heap is drained: keys come out sorted and equal
-to the model.  Timer queue oracle: list of live (time, pointer, cookie)
+to the model.  Every heap history is run in one of the eight
+combinations {position callback present / absent} x {user cookie non-NULL /
+NULL} x {ptrheap_init / ptrheap_create}; both callbacks must be handed exactly
+the cookie given at construction (NULL included: a callback that stores the
+position inside the element never looks at it, which is what timerqueue.c's own
+callback does).  The array given to ptrheap_create is overwritten and freed as
+soon as the call returns.  "Tiny" histories keep the heap at 0..4 elements:
+handle operations on the only element, deletion of the last slot, deletemin
+down to the empty heap, getmin on the empty heap, refill.  Timer queue oracle: list of live (time, pointer, cookie)
 entries; `getptr(t)` must return the stored pointer of a live entry whose time
 equals the least live time iff that time <= t, else NULL; `getmin` equals the
 least live time; cookies are used long after they were issued.
@@ -46,7 +54,13 @@ def gen_cases(seed, tier, shard):
 
     for _ in range(120 * scale):
         cls = rnd.random()
-        if cls < 0.55:
+        tiny = 0
+        if cls < 0.12:
+            # heap hovering between empty and 4 elements
+            tiny = 1
+            ncreate = rnd.choice([-1, -1, 0, 1, 1, 2, 3, 4])
+            nops = rnd.randrange(100, 600)
+        elif cls < 0.55:
             ncreate = rnd.choice([-1, -1, 0, 1, 2, 3, 4, 5, 7, 8, 15, 16, 17, 31, 40, 64])
             nops = rnd.randrange(200, 1500)
         elif cls < 0.85:
@@ -55,9 +69,14 @@ def gen_cases(seed, tier, shard):
         else:
             ncreate = rnd.choice([rnd.randrange(700, 3001), 3000, 2047, 2048])
             nops = rnd.randrange(100, 400)
-        cb = 0 if rnd.random() < 0.15 else 1
-        add('heap', 'H %d %d %d %d %d' % (rnd.getrandbits(62), nops,
-                                          rnd.randrange(4), ncreate, cb))
+        if not tiny and rnd.random() < 0.12:
+            ncreate = -1
+        cb = 0 if rnd.random() < 0.2 else 1
+        # user cookie: NULL in 55% of the histories (so NULL cookie + position
+        # callback is about 44% of all heap histories)
+        ck = 0 if rnd.random() < 0.55 else 1
+        add('heap', 'H %d %d %d %d %d %d %d' % (rnd.getrandbits(62), nops,
+                                                rnd.randrange(4), ncreate, cb, ck, tiny))
     for _ in range(70 * scale):
         prefill = rnd.choice([0, 0, 1, 5, 50, 50, 500, 3000])
         nops = rnd.randrange(200, 1500) if prefill < 3000 else rnd.randrange(200, 400)
@@ -140,29 +159,57 @@ def run(ctx):
     cov = ctx.cov
     need = ['heap_delete_sift_up', 'heap_delete_sift_down', 'heap_delete_last',
             'heap_increase', 'heap_decrease', 'heap_increasemin', 'heap_drained',
-            'heap_created_elements', 'heap_callbacks', 'tq_released',
+            'heap_created_elements', 'heap_callbacks',
+            'heap_hist_callback_cookie_init', 'heap_hist_callback_cookie_create',
+            'heap_hist_callback_nullcookie_init', 'heap_hist_callback_nullcookie_create',
+            'heap_hist_nocallback_cookie_init', 'heap_hist_nocallback_cookie_create',
+            'heap_hist_nocallback_nullcookie_init', 'heap_hist_nocallback_nullcookie_create',
+            'heap_hist_tiny', 'heap_single_element_handle_ops',
+            'heap_single_element_deleted_by_handle', 'heap_became_empty',
+            'heap_empty_getmin_null', 'heap_refilled_after_empty',
+            'heap_create_array_elems_scribbled_and_freed', 'tq_released',
             'tq_refused_not_due', 'tq_released_among_ties', 'tq_old_cookie_used',
             'tq_increase', 'tq_delete']
     if not ctx.violations:
         missing = [k for k in need if cov.get(k, 0) == 0]
         if missing:
             ctx.note_inconclusive('monitors never observed: ' + ', '.join(missing))
+        nh = cov.get('histories_heap', 0)
+        nc = cov.get('heap_hist_callback_nullcookie_init', 0) + \
+            cov.get('heap_hist_callback_nullcookie_create', 0)
+        cov['heap_histories_with_callback_and_null_cookie'] = nc
+        if nh and nc * 4 < nh:
+            ctx.note_inconclusive('position callback with a NULL user cookie in only %d of %d heap '
+                                  'histories' % (nc, nh))
     cov['rule'] = (
-        'case = one random history (line = kind, seed, operations, key/time mode, initial size[, callback]); '
+        'case = one random history (line = kind, seed, operations, key/time mode, initial size[, callback, cookie, '
+        'tiny]); '
         'heap: ptrheap_init or ptrheap_create from 0..3000 elements, then 100..1500 operations mixing add, getmin, '
         'deletemin, increasemin, delete/increase/decrease by reported position (last, root, middle, random element), '
         'keys from 0..3, 0..15, 0..999 or all of int64 (with INT64_MIN/MAX), comparison results of varying magnitude, '
-        'growth/drain phases, full invariant walk after every operation, final drain; 15% without a callback; '
+        'growth/drain phases, full invariant walk after every operation, final drain; every history runs in one of the '
+        '8 combinations {position callback present (80%) / absent (20%: handle operations not used)} x {user cookie '
+        'non-NULL (45%) / NULL (55%)} x {ptrheap_init / ptrheap_create} (counters heap_hist_*; callback + NULL cookie '
+        'must be >= 25% of the heap histories), and both callbacks must receive exactly the construction cookie; the '
+        'array passed to ptrheap_create is overwritten with junk and freed right after the call (the heap must have '
+        'copied it; ASan would report a later access); 12% "tiny" histories keep the heap at 0..4 elements: '
+        'increase/decrease/delete by handle on the only element, delete of the last slot, deletemin down to empty, '
+        'getmin == NULL on the empty heap, refill (ptrheap_deletemin on an empty heap is excluded by its documentation '
+        'and never called); '
         'timer queue: 0..3000 prefilled entries then 200..1500 operations (add, delete and increase by cookie with a '
         'preference for the oldest cookies, release loops under a non-decreasing clock placed at/just below the '
         'minimum, arbitrary single queries), times all equal / equal seconds / few values / wide; '
         'non-trivial = heap with callback: >=1 interior deletion that sifted up and >=1 that sifted down; heap '
-        'without callback: >=10 deletemin; timer: >=1 release, >=1 refusal with a non-empty queue, >=1 increase and '
+        'without callback: >=10 deletemin; tiny heap: became empty and was refilled at least once (with callback: '
+        'and >=1 handle operation on the only element); timer: >=1 release, >=1 refusal with a non-empty queue, >=1 increase and '
         '>=1 delete; distinct = distinct FNV signature of the executed operation sequence')
     cov['sanitizers'] = 'gcc -fsanitize=address,undefined'
     ctx.assumptions += [
         'the hook ptrheap_verif_peek (LIBCPERCIVA_VERIF) returns the element at a heap position',
         'increase/decrease by 0 (key unchanged) is treated as a legal call',
+        'a NULL user cookie is legal for ptrheap_init/ptrheap_create whether or not a position callback is given '
+        '(the cookie is opaque to the heap; tests/heap itself passes NULL)',
+        'the caller may modify or free the array passed to ptrheap_create as soon as the call has returned',
         'histories are random samples; heap sizes up to about 3400, timer queues up to about 3500 entries',
     ]
 
